@@ -82,6 +82,14 @@ def gen_case(ctx: Ctx) -> dict[str, Any]:
             events.append(sl.ev(nm, jid, r.choice("ABC"), ids[i], st, en, parent, app="app"))
         kinds[jid] = f"{kind}/{place}"
         k += n
+    # real OTel timestamps are ~1.7e18 ns (beyond 2**53): shift the whole store there in most cases, so that window
+    # arithmetic in floating point would show; edges stay exact integers
+    if r.random() < 0.7:
+        T0 = 1_700_000_000_000_000_000 + r.randrange(0, 10**9)
+        events = [{**e, "start": e["start"] + T0, "end": e["end"] + T0} for e in events]
+        ctx.tick("epoch_realistic")
+    else:
+        ctx.tick("epoch_small")
     r.shuffle(events)
     ctx.tick(f"buffer{buffer}")
     for v in kinds.values():
